@@ -81,7 +81,7 @@ def shrink(seed, ops, oracles, conf, key, faults=None, budget=60):
 
 
 def campaign(ctx, res, oracles, n_hist, n_ops, variants=None, loss=0.1, dup=0.15, fault_hist=0, prepare=None,
-             check_shell=True, per_history=None):
+             check_shell=True, per_history=None, deep=True):
     """runs histories; returns the list of History objects' summaries"""
     rng = ctx.rng
     variants = variants or CONF_VARIANTS
@@ -92,7 +92,7 @@ def campaign(ctx, res, oracles, n_hist, n_ops, variants=None, loss=0.1, dup=0.15
         faults = None
         if fault_hist and k % fault_hist == fault_hist - 1:
             faults = {'newsa': {rng.choice('AB'): [rng.randrange(0, 12)]}}
-        h = CP.History(seed, trace=check_shell and ctx.driver is not None, **conf)
+        h = CP.History(seed, trace=check_shell and ctx.driver is not None, deep=deep, **conf)
         try:
             h.oracles = list(oracles)
             if faults:
@@ -126,10 +126,27 @@ def campaign(ctx, res, oracles, n_hist, n_ops, variants=None, loss=0.1, dup=0.15
                 lines_total += len(h.tr.lines)
                 for line, want, out, c in bad[:3]:
                     res.mismatch('miter (%s %s)' % (c['ep'], c['event']), MC.first_diff(want, out)[:300], out[:120])
+            if h.tr is not None and deep:
+                # the concrete handler model, call by call, and the whole model (shell + handlers), iteration by iteration
+                h.tr.close()
+                deep_check(ctx, res, h.tr)
         finally:
             h.close()
     res.extra['shell_iterations_replayed_on_model'] = res.extra.get('shell_iterations_replayed_on_model', 0) + lines_total
     return res
+
+
+def deep_check(ctx, res, tr):
+    hb = tr.check_handlers(ctx.driver)
+    xb = tr.check_whole(ctx.driver)
+    res.extra['handler_calls_replayed_on_model'] = res.extra.get('handler_calls_replayed_on_model', 0) + len(tr.hlines)
+    res.extra['whole_model_iterations_replayed'] = res.extra.get('whole_model_iterations_replayed', 0) + len(tr.xlines)
+    for _, _, c in tr.hlines:
+        res.count('handler:%s%s' % (c['name'], ('!' + c['raised']) if c['raised'] else ''))
+    for line, want, out, c in hb[:3]:
+        res.mismatch('hcall (%s %s%s)' % (c['ep'], c['name'], ('!' + c['raised']) if c['raised'] else ''), MC.first_diff(want, out)[:300], out[:120])
+    for line, want, out, c in xb[:3]:
+        res.mismatch('xiter (%s %s)' % (c['ep'], c['kind']), (MC.first_diff(want, out) if want != 'loop interrupted' else want)[:300], out[:120])
 
 
 def replay_generic(rep, oracles):
